@@ -67,5 +67,8 @@ WaitIsEstimate == [][(out'.printed /\ out'.label = "wait") =>
 \* a "used" time is the time since the run's first call, never since an earlier run's
 UsedIsThisRun == [][(out'.printed /\ out'.label = "used") =>
                       out'.h * 3600 + out'.m * 60 + out'.s = now' - (IF armed THEN start ELSE now')]_vars
+\* vacuity witnesses (expected to be violated): a completed run is reached, the floating-point slack case is reached
+NoCompletion == ~(out.printed /\ out.label = "used" /\ ~armed)
+NoSlack == ~(out.printed /\ Cardinality(out.pcts) = 2)
 Emit == (KeepHist /\ Len(hist) = MaxLen) => PrintT(ToJson([hist |-> hist]))
 =============================================================================
